@@ -158,6 +158,14 @@ func subPartition(p *partitions, group int) {
 			}
 		})
 
+		// Distinguish non-greedy accepting states from greedy ones: the lexer stops
+		// at the former and keeps going at the latter, so merging them would make
+		// the greedy state stop early (or the non-greedy one run on).
+		if first.NonGreedy != s.NonGreedy {
+			move.Add(s)
+			return
+		}
+
 		// Distinguish states that have different accepting NFA states.
 		// This is not covered in theory, as far as I could determine.
 		// Given the example below:
